@@ -12,7 +12,7 @@
      signed_blocks / enc_blocks    HabContainer._get_signed_blocks / _get_encrypted_blocks
      hab_build                     load_from_config + update_csf (AES-CCM encryption, block lists written into the
                                    Authenticate Data / Decrypt Data commands) + export
-     place                         BinaryImage.export of the segment tree (stable sort by offset, later writes win)
+     place / segs_ok               BinaryImage.export of the segment tree; HabContainer.image_info refuses overlapping segments
      hab_parse                     HabContainer.parse incl. the application-offset search of AppHabSegment.parse
      srk_fuses                     SrkTable.export_fuses
 
@@ -254,12 +254,11 @@ Definition xmcd_hdr_parse (d : list N) : res (option (Z * Z * Z * Z)) :=
       else if negb (typ <=? 1) then Err E_REJECT
       else Ok (Some (iface, inst, typ, bsz)).
 
-(* XMCDHeader.export: pack("<4B", size & 0xFF, (type << 4) + (size >> 8), interface << 4 + instance, tag << 4 + version)
-   -- Python parses  a << 4 + b  as  a << (4 + b) *)
+(* XMCDHeader.export: pack("<4B", size & 0xFF, (type << 4) + (size >> 8), (interface << 4) + instance, (tag << 4) + version) *)
 Definition xmcd_export (x : xmcd) : res (list N) :=
   let bs := xmcd_size x in
   let b1 := xm_type x * 16 + bs / 256 in
-  let b2 := xm_if x * 2 ^ (4 + xm_inst x) in
+  let b2 := xm_if x * 16 + xm_inst x in
   if all_fit 1 [b1; b2] then Ok (hbe 1 (bs mod 256) ++ hbe 1 b1 ++ hbe 1 b2 ++ [192%N] ++ xm_cfg x) else Err E_CRASH.
 
 (* SegXMCD.parse(file) *)
@@ -432,6 +431,15 @@ Definition segs_len (l : list seg) : Z := fold_right (fun s a => Z.max (fst s + 
 Definition write_seg (buf : list N) (s : seg) : list N := splice buf (Z.to_nat (fst s)) (snd s).
 Definition place (l : list seg) : list N := fold_left write_seg (sort_segs l) (hzeros (segs_len l)).
 
+(* HabContainer.image_info: a non-empty segment that intersects an earlier segment's range is refused (SPSDKError) *)
+Definition ovl_any (occ : list (Z * Z)) (o e : Z) : bool := existsb (fun r => (o <? snd r) && (fst r <? e)) occ.
+Fixpoint segs_ok (occ : list (Z * Z)) (l : list seg) : bool :=
+  match l with
+  | [] => true
+  | s :: t => negb ((0 <? hlen (snd s)) && ovl_any occ (fst s) (fst s + hlen (snd s)))
+              && segs_ok (occ ++ [(fst s, fst s + hlen (snd s))]) t
+  end.
+
 (* ------------------------------------------------------------------ configuration and build *)
 Record hcfg := {
   h_flags : Z; h_start : Z; h_ivt_off : Z; h_ils : Z; h_entry : option Z;
@@ -502,14 +510,16 @@ Definition blk (c : hcfg) (off size : Z) : Z * Z := (h_start c + h_ivt_off c + o
 Definition signed_blocks (c : hcfg) (q : pre) : list (Z * Z) :=
   [blk c 0 64]
   ++ (match q_dcd q with Some _ => [blk c 64 (q_dcd_sz q)] | None => [] end)
-  ++ (match q_xm q with Some _ => [blk c 64 0] | None => [] end)      (* SegXMCD has no size property: 0 *)
+  ++ (match q_xm q with Some x => [blk c 64 (xmcd_size x)] | None => [] end)
   ++ (if c_enc c then [] else [blk c (c_app_off c) (hlen (c_app_bin c))]).
 Definition enc_blocks (c : hcfg) : list (Z * Z) := [blk c (c_app_off c) (hlen (c_app_bin c))].
 
+(* segments of an authenticated container in SEGMENTS_MAPPING order *)
+Definition all_segs (c : hcfg) (q : pre) (csf ap : list N) : list seg := base_segs q ++ [(c_csf_off c, csf); (c_app_off c, ap)].
+
 (* export_padding()[: ivt_offset + csf.offset] with the first CSF export *)
 Definition padded_image (c : hcfg) (q : pre) (csf0 : list N) : list N :=
-  firstn (Z.to_nat (h_ivt_off c + c_csf_off c))
-         (hzeros (h_ivt_off c) ++ place (base_segs q ++ [(c_csf_off c, csf0); (c_app_off c, c_app_bin c)])).
+  firstn (Z.to_nat (h_ivt_off c + c_csf_off c)) (hzeros (h_ivt_off c) ++ place (all_segs c q csf0 (c_app_bin c))).
 
 (* CsfHabSegment.encrypt: (commands, application ciphertext, nonce, mac) *)
 Definition hab_encrypt (c : hcfg) (q : pre) (image : list N) : res (list ccmd * list N * list N * list N) :=
@@ -538,6 +548,8 @@ Definition mk_built (c : hcfg) (q : pre) (image : list N) sb eb tbs tbs_csf csf_
 (* HabContainer.update_csf on an authenticated container, then export *)
 Definition hab_finish (c : hcfg) (q : pre) : res built :=
   bind (csf_export (h_ver c) (q_cmds0 q)) (fun csf0 =>
+  if negb (segs_ok [] (all_segs c q csf0 (c_app_bin c))) then Err E_REJECT
+  else
   let image := padded_image c q csf0 in
   bind (if c_enc c then res_map (fun e => let '(cmds1, ct, nonce, mac) := e in (cmds1, ct, enc_blocks c, nonce, mac)) (hab_encrypt c q image)
         else Ok (q_cmds0 q, c_app_bin c, [], [], [])) (fun e =>
@@ -552,15 +564,17 @@ Definition hab_finish (c : hcfg) (q : pre) : res built :=
     | None => Err E_REJECT
     | Some cmds3 =>
       bind (csf_export (h_ver c) cmds3) (fun csf_b =>
-      Ok (mk_built c q (place (base_segs q ++ [(c_csf_off c, csf_b); (c_app_off c, app_fin)])) sb eb
-                   (tbs_of c image sb) (csf_base (h_ver c) cmds3) csf_b app_fin nonce mac))
+      if negb (segs_ok [] (all_segs c q csf_b app_fin)) then Err E_REJECT
+      else Ok (mk_built c q (place (all_segs c q csf_b app_fin)) sb eb
+                        (tbs_of c image sb) (csf_base (h_ver c) cmds3) csf_b app_fin nonce mac))
     end
   end)).
 
 Definition hab_build (c : hcfg) : res built :=
   bind (hab_pre c) (fun q =>
   if negb (c_auth c) then
-    Ok (mk_built c q (place (base_segs q ++ [(c_app_off c, c_app_bin c)])) [] [] [] [] [] (c_app_bin c) [] [])
+    if negb (segs_ok [] (base_segs q ++ [(c_app_off c, c_app_bin c)])) then Err E_REJECT
+    else Ok (mk_built c q (place (base_segs q ++ [(c_app_off c, c_app_bin c)])) [] [] [] [] [] (c_app_bin c) [] [])
   else hab_finish c q).
 
 (* ------------------------------------------------------------------ parse *)
